@@ -109,3 +109,25 @@ Example C20_nonvacuous :
   /\ startup yes yes (fun _ => false) dur config_tags (sample_doc [] 3) = Rejected "resolve"
   /\ version_ok (0, 9, 5)%N = true /\ version_ok (0, 9, 4)%N = false /\ version_ok (0, 10, 0)%N = false.
 Proof. split; [eexists; vm_compute; reflexivity|]. vm_compute. repeat split; reflexivity. Qed.
+
+(* "Values appear unchanged", read at full strength for NUMERIC fields, does not hold and is not claimed:
+   yaml.v2 converts a float scalar given for an integer field by truncation, so a file that says
+   `maxRetrans: 2.5` is started with MaxRetrans = 2 (likewise mtu and retransTimeout).  The witness below is the
+   model's; the same document is part of every correspondence run (checks/c20.py, SEMANTIC["maxRetrans"]) and the
+   real ReadConfig accepts it with the value 2.  What IS proved is C20_values_unchanged (the running configuration
+   is the decoded document) and C20_strings_as_written; the monitor checks string fields as written. *)
+Theorem C20_numeric_as_written_refuted :
+  exists doc c a m p,
+    startup yes yes yes dur config_tags doc = Started c a m
+    /\ sub "maxRetrans" (sub "pfcp" doc) = Some (YScalar (KFloat 2) "2.5")
+    /\ c_pfcp c = Some p /\ p_max_retrans p = 2%Z.
+Proof.
+  exists (Some (YMap [("version", S_ "1.0.3");
+              ("pfcp", YMap [("addr", S_ "127.0.0.8"); ("nodeID", S_ "127.0.0.8"); ("retransTimeout", S_ "1s");
+                             ("maxRetrans", YScalar (KFloat 2) "2.5")]);
+              ("gtpu", YMap [("forwarder", S_ "gtp5g"); ("ifList", YSeq [YMap [("addr", S_ "127.0.0.8"); ("type", S_ "N3")]])]);
+              ("dnnList", YSeq [YMap [("dnn", S_ "internet"); ("cidr", S_ "10.60.0.0/24")]]);
+              ("logger", YMap [("level", S_ "info")])])).
+  eexists. eexists. eexists. eexists. vm_compute. repeat split; reflexivity.
+Qed.
+Print Assumptions C20_numeric_as_written_refuted.
